@@ -1,4 +1,4 @@
-CONSTANTS MaxPool = 4  MaxOps = 10  MaxNodes = 4  NameIds = {0, 1, 2}  Bug = "AfterNoPrevFix"  Emit = FALSE
+CONSTANTS MaxPool = 4  MaxOps = 10  MaxNodes = 4  NameIds = {0, 1, 2}  Bug = "AfterNoPrevFix"  AllowDetached = FALSE  Emit = FALSE
 INIT Init
 NEXT Next
 VIEW View
